@@ -106,6 +106,12 @@ CLAIMED = {
         "Distributional claims are decided statistically: gross non-uniformity (wrong weights, wrong Dirichlet) is detected, a 1 % bias is not.",
         "DESIGN.md section 6 C13",
     ),
+    "C17": (
+        "Hypothesis property-based testing: variational inequality + facet inequalities for the nearest point, facet equations + LP for the boundary multiple, plane equation + membership LP + support-function equality (LP) for the slice",
+        "Generated clouds in 2-5 D (random, lattice-like with coplanar points, fewer points than dimensions for the slice), query points inside/outside/far/at vertices, plane constants between the extreme coordinate sums incl. exactly at a vertex.",
+        "Trusts scipy ConvexHull equations as the description of the hull handed to the code and HiGHS optima (slice supports compared at 1e-6 of the cloud size).",
+        "DESIGN.md section 6 C17",
+    ),
 }
 
 PENDING_REASON = "check not built yet in this revision (planned, see DESIGN.md section 6); not claimed until its check runs quietly on the unchanged tree"
